@@ -26,6 +26,10 @@ impl<'a> WireFormat<'a> for DNSKEY<'a> {
     where
         Self: Sized,
     {
+        if data.len() < *position + 4 {
+            return Err(crate::SimpleDnsError::InsufficientData);
+        }
+
         let flags = u16::from_be_bytes(data[*position..*position + 2].try_into()?);
         *position += 2;
 
